@@ -10,7 +10,7 @@ from klongpy.core import KGSym, KGFn, KGLambda, KGFnWrapper, KlongException
 from vt.props.ipcstub import Fut, step, Prov, Loop, patch, unpatch
 
 PROPERTY = "C13"
-FUNCTIONS = ["klongpy.sys_fn_ipc.encode_message", "klongpy.sys_fn_ipc.decode_message_len", "klongpy.sys_fn_ipc.decode_message",
+FUNCTIONS = ["klongpy.sys_fn_ipc.run_command_on_klongloop", "klongpy.sys_fn_ipc.encode_message", "klongpy.sys_fn_ipc.decode_message_len", "klongpy.sys_fn_ipc.decode_message",
              "klongpy.sys_fn_ipc.stream_send_msg", "klongpy.sys_fn_ipc.stream_recv_msg", "klongpy.sys_fn_ipc.execute_server_command"]
 ASSUMPTIONS = [
     "pickle.dumps/loads = an opaque injective codec (identity on bytes): that a VALUE survives pickle (C code) is not examined",
@@ -472,6 +472,8 @@ class FakeKlong:
         self.log.append(('eval', s, self._context.get(KGSym('.cli.h'))))
         if s == "boom":
             raise ValueError("eval failed")
+        if s == "keyerr":
+            raise KeyError("price")              # a Python function called by the expression failed a dict lookup
         if s == "fn":
             return KGFn("a", None, 2)
         return ('evaluated', s)
@@ -479,7 +481,7 @@ class FakeKlong:
 
 def dispatch(kind: int, a: int, b: int) -> bool:
     """
-    pre: 0 <= kind <= 10
+    pre: 0 <= kind <= 12
     post: _
     """
     enter()
@@ -510,6 +512,13 @@ def dispatch(kind: int, a: int, b: int) -> bool:
         cmd = "boom"; expect_exc = "internal error"
     elif kind == 9:
         cmd = "fn"; expect = 'fnref'
+    elif kind == 11:
+        cmd = "keyerr"; expect_exc = ""                       # whatever the message: the caller must get an error, not silence
+    elif kind == 12:
+        class _Raising(_PyFn):
+            def __call__(self, *a):
+                self.log.append(('pyfn', a)); raise KeyError("missing")
+        table[sym] = _Raising(log); cmd = IPC.KGRemoteFnCall(sym, [a]); expect_exc = ""
     else:
         inner = KGFn("a", None, 1)
         table[sym] = KGFnWrapper(None, inner, sym=sym); cmd = IPC.KGRemoteDictGetCall(sym); expect = 'fnref1'
@@ -556,11 +565,95 @@ def dispatch(kind: int, a: int, b: int) -> bool:
     return verdict(fut.val == expect)
 
 
+class _KLoop:
+    """the interpreter's own event loop: work handed to it is queued, it runs later (the loop may be busy evaluating)"""
+    def __init__(self):
+        self.queue = []
+
+    def call_soon_threadsafe(self, fn, *a):
+        self.queue.append((fn, a))
+
+
+class _IOLoop:
+    def call_soon_threadsafe(self, fn, *a):
+        fn(*a)
+
+
+def _mk_asyncio(ioloop):
+    class _A:
+        Future = Fut
+
+        @staticmethod
+        def get_event_loop():
+            return ioloop
+
+        @staticmethod
+        def create_task(coro):
+            return coro
+    return _A
+
+
+def on_klongloop(kind: int, a: int, b: int) -> bool:
+    """
+    pre: 0 <= kind <= 4
+    post: _
+    """
+    # A command received on the IO thread must be EXECUTED on the interpreter's own loop: until that loop picks the work up,
+    # the interpreter (its variables, its context stack) is not touched from the IO thread, whatever the command class.
+    enter()
+    log = []
+    sym = KGSym('name')
+    table = {sym: b}
+    if kind == 0:
+        cmd = IPC.KGRemoteDictGetCall(sym); want = b
+    elif kind == 1:
+        cmd = IPC.KGRemoteDictSetCall(sym, a); want = None
+    elif kind == 2:
+        table[sym] = _PyFn(log); cmd = IPC.KGRemoteFnCall(sym, [a, b]); want = ('pyfn-result', (a, b))
+    elif kind == 3:
+        cmd = "1+1"; want = ('evaluated', "1+1")
+    else:
+        cmd = IPC.KGRemoteDictGetCall(KGSym('absent')); want = None
+    klong = FakeKlong(table, log)
+    kloop = _KLoop(); ioloop = _IOLoop()
+    nc = object()
+    patch(asyncio=_mk_asyncio(ioloop))
+    import traceback as _tbm
+    saved_pe = _tbm.print_exception
+    _tbm.print_exception = lambda *a_, **k_: None
+    try:
+        co = IPC.run_command_on_klongloop(kloop, klong, cmd, nc)
+        k, v = step(co)
+        if k != 'susp':
+            return verdict(False)                   # it must wait for the interpreter loop, not answer by itself
+        if log:
+            return verdict(False)                   # the interpreter was touched from the IO thread
+        if len(kloop.queue) != 1:
+            return verdict(False)
+        fn, args = kloop.queue[0]
+        if len(args) != 1:
+            return verdict(False)
+        k2, v2 = step(fn(*args))                    # now the interpreter loop runs the command
+        if k2 != 'ret':
+            return verdict(False)
+        k3, v3 = step(co)
+        if kind == 4:
+            return verdict(k3 == 'exc' and isinstance(v3, KlongException))
+        if k3 != 'ret':
+            return verdict(False)
+        if kind == 1:
+            return verdict(v3 is None and table[sym] == a)
+        return verdict(v3 == want)
+    finally:
+        _tbm.print_exception = saved_pe
+        unpatch()
+
+
 def bounds(tier):
     q = tier == "quick"
     return {"frames": "2 (payload <= 3 bytes each)" if q else "2 (payload <= 6 bytes) and 3 (payload <= 3 bytes)",
             "abstract framing": "%d frames whose body lengths are symbolic integers in [4, 2^32) (the shortest pickle has 4 bytes); symbolic cut; up to 4 symbolic partial-read sizes" % (2 if q else 3),
-            "cut point": "any byte position of the stream, or none", "commands": "11 command/interpreter-state classes, symbolic integer parameters"}
+            "cut point": "any byte position of the stream, or none", "commands": "13 command/interpreter-state classes (incl. KeyError raised inside an evaluated expression / called function), symbolic integer parameters"}
 
 
 def obligations(tier):
@@ -568,7 +661,8 @@ def obligations(tier):
     obs = [{"name": "framing 2 frames payload<=3", "fn": "frames", "cfg": {"frames": 2, "maxlen": 3}, "timeout": 300 if q else 900},
            {"name": "framing over abstract lengths: 2 frames, any body length < 2^32, any cut, any partial-read sizes", "fn": "frames_abstract",
             "cfg": {"frames": 2}, "timeout": 300 if q else 900},
-           {"name": "server command dispatch", "fn": "dispatch", "cfg": {}, "timeout": 120}]
+           {"name": "server command dispatch", "fn": "dispatch", "cfg": {}, "timeout": 120},
+           {"name": "commands run on the interpreter's loop, never on the IO thread", "fn": "on_klongloop", "cfg": {}, "timeout": 120}]
     if not q:
         obs.append({"name": "framing over abstract lengths: 3 frames", "fn": "frames_abstract", "cfg": {"frames": 3}, "timeout": 1800})
         obs.append({"name": "framing 3 frames payload<=3", "fn": "frames", "cfg": {"frames": 3, "maxlen": 3}, "timeout": 1800})
